@@ -516,3 +516,9 @@ mod test_path_tpc {
     }
     check_cases!(PathTpc);
 }
+
+// Verification hook (inert unless built with `--cfg nrel_altrios_verif` or under `cargo kani`).
+#[cfg(any(kani, nrel_altrios_verif))]
+mod verif_hook {
+    include!(concat!(env!("NREL_ALTRIOS_VERIF_DIR"), "/hooks/track__path_track__path_tpc.rs"));
+}
